@@ -306,3 +306,78 @@ Proof.
     + pose proof (cnt_nonneg (refs_all t) x). unfold cnt_all. lia.
     + specialize (IH k x). pose proof (cnt_nonneg l0 x). lia.
 Qed.
+
+(* ------------------------------------------------------------------ canonical form: strictly increasing denoms *)
+Inductive sorted_coins : coins -> Prop :=
+| sc_nil : sorted_coins []
+| sc_cons : forall d a r, sorted_coins r -> (forall x, In x r -> d < fst x) -> sorted_coins ((d, a) :: r).
+
+Lemma add_coin_in : forall c d a x, In x (add_coin d a c) -> fst x = d \/ In x c.
+Proof.
+  induction c as [|[d0 a0] r IH]; intros d a x H; cbn [add_coin] in H.
+  - destruct H as [<-|[]]; auto.
+  - destruct (d <? d0); [destruct H as [<-|H]; auto|].
+    destruct (d =? d0) eqn:E.
+    + apply Z.eqb_eq in E; subst. destruct H as [<-|H]; [left; reflexivity|right; right; auto].
+    + destruct H as [<-|H]; [right; left; auto|]. destruct (IH _ _ _ H); auto. right; right; auto.
+Qed.
+
+Lemma add_coin_sorted : forall c d a, sorted_coins c -> sorted_coins (add_coin d a c).
+Proof.
+  induction c as [|[d0 a0] r IH]; intros d a H; cbn [add_coin].
+  - constructor; [constructor|intros ? []].
+  - inversion H; subst. destruct (d <? d0) eqn:E1.
+    + apply Z.ltb_lt in E1. constructor; auto. intros x [<-|Hx]; [cbn; lia|]. specialize (H4 _ Hx). lia.
+    + apply Z.ltb_ge in E1. destruct (d =? d0) eqn:E2.
+      * constructor; auto.
+      * apply Z.eqb_neq in E2. constructor; [apply IH; auto|]. intros x Hx.
+        destruct (add_coin_in _ _ _ _ Hx) as [->|Hx']; [lia|auto].
+Qed.
+
+Lemma coins_add_sorted : forall y x, sorted_coins x -> sorted_coins (coins_add x y).
+Proof.
+  unfold coins_add. induction y as [|[d0 a0] r IH]; intros x H; cbn [fold_left fst snd]; auto.
+  apply IH. destruct (a0 =? 0); auto. apply add_coin_sorted; auto.
+Qed.
+
+Lemma sub_coin_in : forall c d a c' x, sub_coin d a c = Some c' -> In x c' -> exists y, In y c /\ fst y = fst x.
+Proof.
+  induction c as [|[d0 a0] r IH]; intros d a c' x H Hx; cbn [sub_coin] in H.
+  - destruct (a =? 0); inversion H; subst. destruct Hx.
+  - destruct (d0 =? d).
+    + destruct (a0 <? a); [discriminate|]. destruct (a0 =? a); inversion H; subst.
+      * exists x. split; [right; auto|auto].
+      * destruct Hx as [<-|Hx]; [exists (d0, a0); split; [left; auto|auto]|exists x; split; [right; auto|auto]].
+    + destruct (sub_coin d a r) eqn:Hr; [|discriminate]. inversion H; subst.
+      destruct Hx as [<-|Hx]; [exists (d0, a0); split; [left; auto|auto]|].
+      destruct (IH _ _ _ _ Hr Hx) as (y & Hy & E). exists y. split; [right; auto|auto].
+Qed.
+
+Lemma sub_coin_sorted : forall c d a c', sub_coin d a c = Some c' -> sorted_coins c -> sorted_coins c'.
+Proof.
+  induction c as [|[d0 a0] r IH]; intros d a c' H Hs; cbn [sub_coin] in H.
+  - destruct (a =? 0); inversion H; constructor.
+  - inversion Hs; subst. destruct (d0 =? d).
+    + destruct (a0 <? a); [discriminate|]. destruct (a0 =? a); inversion H; subst; auto. constructor; auto.
+    + destruct (sub_coin d a r) eqn:Hr; [|discriminate]. inversion H; subst. constructor; [eapply IH; eauto|].
+      intros x Hx. destruct (sub_coin_in _ _ _ _ _ Hr Hx) as (y & Hy & E). rewrite <- E. auto.
+Qed.
+
+Lemma coins_sub_sorted : forall x y r, coins_sub x y = Some r -> sorted_coins x -> sorted_coins r.
+Proof.
+  unfold coins_sub. intros x y. revert x. induction y as [|[d0 a0] t IH]; intros x r H Hs; cbn [fold_left fst snd] in H.
+  - inversion H; subst; auto.
+  - destruct (sub_coin d0 a0 x) eqn:Hc.
+    + eapply IH; eauto. eapply sub_coin_sorted; eauto.
+    + exfalso. clear -H. induction t; cbn in H; [discriminate|auto].
+Qed.
+
+Lemma mk_coins_sorted : forall raw, sorted_coins (mk_coins raw).
+Proof. intros. unfold mk_coins. apply coins_add_sorted. constructor. Qed.
+
+Lemma sorted_amount_tail : forall d a r, sorted_coins ((d, a) :: r) -> amount_of r d = 0.
+Proof.
+  intros d a r H. inversion H; subst. clear -H4. induction r as [|[d1 a1] t IH]; cbn [amount_of]; auto.
+  assert (d < d1) by (apply (H4 (d1, a1)); left; auto).
+  destruct (d1 =? d) eqn:E; [apply Z.eqb_eq in E; lia|]. rewrite IH; [lia|]. intros; apply H4; right; auto.
+Qed.
